@@ -1,7 +1,7 @@
 \* the error handed to the completion callback is sampled inside the stage's own lock section, before
 \* pending.Dec() (instead of being read after pending reached zero): must violate ErrorReported
 CONSTANTS
-  MCTrees <- MCTreesQuick
+  MCTrees <- MCTreesPair
   KeepFirstError = TRUE
   RecoverPerStage = TRUE
   FirstErrorWins = TRUE
